@@ -484,11 +484,33 @@ Section Run.
         destruct (Hok (Hj' eq_refl)) as [_ Ef]. rewrite Ef, nth_repeat_default in Hf. discriminate.
   Qed.
 
-  Lemma RInv_step d u r x o row :
-    Inv I d -> accepted I d r x o row -> RInv d u ->
+  (** The part of the invariant that does not say WHAT has been removed
+      already, only that every removal so far is justified: it also holds
+      while the updater is not subscribed (its graph lags behind the
+      dispatcher; proofs/ResidualLate.v). One notified [update] turns it into
+      the full invariant, because [update] looks at ALL completed operations
+      and ALL flags, not only at the dispatched operation. *)
+  Record WInv (d : dstate) (u : rgu) : Prop := {
+    w_rm_m : u_rm_m u = rm_m;
+    w_rm_j : u_rm_j u = rm_j;
+    w_ic : rm_m || rm_j = true ->
+           exists c, has_ic u c /\ (rm_m = true -> ic_m c = true) /\ (rm_j = true -> ic_j c = true) /\
+                     ic_inv I d c;
+    w_graph : exists L,
+        u_graph u = fold_left remove_if_present L g0 /\ (forall n, In n L -> justified I b d n)
+  }.
+
+  Lemma RInv_WInv d u : RInv d u -> WInv d u.
+  Proof.
+    intros [R1 R2 R3 (L & EL & HJ & _)]. constructor; [exact R1|exact R2|exact R3|].
+    exists L. split; [exact EL|exact HJ].
+  Qed.
+
+  Lemma WInv_step d u r x o row :
+    Inv I d -> accepted I d r x o row -> WInv d u ->
     RInv (apply_sop I d x row) (rgu_update I fs (apply_sop I d x row) x u).
   Proof.
-    intros Hi Ha [R1 R2 R3 (L & EL & HJ & HC & HM & HJb)].
+    intros Hi Ha [R1 R2 R3 (L & EL & HJ)].
     assert (Hv : valid I) by exact (proj1 Hsc).
     pose proof (Inv_apply_sop I d r x o row Hv Hi Ha) as Hi'.
     set (d' := apply_sop I d x row) in *.
@@ -614,6 +636,11 @@ Section Run.
         destruct (Hc'eq c (orb_true_r _) Hc) as (c0 & _ & Hinv & _ & Hicj).
         destruct (ii_j _ _ _ Hinv (Hicj eq_refl)) as (_ & Hl & _). unfold J in Hj. rewrite Hl. auto.
   Qed.
+
+  Lemma RInv_step d u r x o row :
+    Inv I d -> accepted I d r x o row -> RInv d u ->
+    RInv (apply_sop I d x row) (rgu_update I fs (apply_sop I d x row) x u).
+  Proof. intros Hi Ha Hr. eapply WInv_step; [exact Hi|exact Ha|apply RInv_WInv; exact Hr]. Qed.
 
   (** Every world reachable from the fresh one by a request list. *)
   Theorem rgu_run rs : forall d u, Inv I d -> RInv d u ->
